@@ -75,10 +75,19 @@ fn differential<T: ChallengeInput + Serialize + DeserializeOwned>(c: &mut Ctx, t
         c.eval();
         c.distinct(&format!("lib/{}/{}", tname, a.fpath));
         c.count("library_atoms_replaced", 1);
-        if ch_of(&v2) == base {
+        let c2 = ch_of(&v2);
+        if c2 == base {
             c.violation(
                 &format!("C12 challenge-unchanged level=library type={} atom={}", tname, a.fpath),
                 json!({"type": tname, "atom": a.path, "original": hex(t.atom_bytes(a)), "replacement": hex(&alt)}),
+            );
+        }
+        // the challenge is a function of its input alone: the original and the changed value hashed again,
+        // in the other order, after other values went through the same code
+        if ch_of(v) != base || ch_of(&v2) != c2 {
+            c.violation(
+                &format!("C12 challenge-depends-on-call-history type={} atom={}", tname, a.fpath),
+                json!({"type": tname, "atom": a.path, "sequence": "v, v', v, v'"}),
             );
         }
     }
